@@ -52,10 +52,10 @@ func init() {
 		if !c.Preload(c.Configs()...) {
 			return
 		}
-		ri := run.Rule("ERR-i", "a return dominated by the failure edge of an error/length test reports failure", 60)
-		rii := run.Rule("ERR-ii", "no non-zero result is returned together with an error", 40)
-		rlen := run.Rule("LEN-const", "constant-bound accesses on parameter-derived slices are guarded by a length fact along every call chain from an exported entry", 60)
-		rpanic := run.Rule("PANIC-class", "every explicit panic is provably impossible, a guarded vector stub, init-time, or documented", 40)
+		ri := run.Rule("ERR-i", "a return dominated by the failure edge of an error/length test reports failure", 60).RequireControl(1)
+		rii := run.Rule("ERR-ii", "no non-zero result is returned together with an error", 40).RequireControl(1)
+		rlen := run.Rule("LEN-const", "constant-bound accesses on parameter-derived slices are guarded by a length fact along every call chain from an exported entry", 60).RequireControl(1)
+		rpanic := run.Rule("PANIC-class", "every explicit panic is provably impossible, a guarded vector stub, init-time, or documented", 40).RequireControl(1)
 		for _, id := range c.Configs() {
 			p := c.Prog(id)
 			run.SetConfig(id)
